@@ -509,3 +509,33 @@ def ob_unset_fields_survive_resume(how: int, in_event: bool) -> bool:
     if state_back != want:
         return False
     return ev_back is None or ev_back == ("_Job", ["hot"], 3)
+
+
+# ----------------------------------------------------------------------------------------------- key names the serializer singles out
+import workflows.context.state_store as _ss12  # noqa: E402
+
+_KEYS12 = [k for k in getattr(_ss12, "KNOWN_UNSERIALIZABLE_KEYS", ()) if isinstance(k, str)] + ["plain"]
+
+
+@obligation(quick=60, thorough=120,
+            what="a DictState entry whose KEY is one of the names the snapshot code treats specially (KNOWN_UNSERIALIZABLE_KEYS, e.g. 'memory') but "
+                 "whose value is ordinary JSON data: to_dict -> JSON -> from_dict brings it back (it is only to be skipped when it cannot be "
+                 "serialized)",
+            bounds={"keys": "KNOWN_UNSERIALIZABLE_KEYS + a plain control", "values": "[] / {} / [1] / {'x': []} / 0"})
+def ob_special_key_names_survive(ki: int, vi: int) -> bool:
+    """
+    pre: 0 <= ki < len(_KEYS12) and 0 <= vi < len(_POOL)
+    post: _
+    """
+    ki, vi = conc(ki, 0, len(_KEYS12) - 1), conc(vi, 0, len(_POOL) - 1)
+
+    def scenario():
+        from workflows.context.state_store import DictState, InMemoryStateStore
+
+        key, val = _KEYS12[ki], json.loads(_POOL[vi])
+        payload = json.loads(json.dumps(InMemoryStateStore(DictState(**{key: val, "other": 1})).to_dict(SER)))
+        back = InMemoryStateStore.from_dict(payload, SER)
+        return vlib.boot.drive(back.get(key, "MISSING")), val
+
+    got, want = native(scenario)
+    return json.dumps(got) == json.dumps(want)
